@@ -174,8 +174,17 @@ def cornerCross (vs : List (V3 α)) : V3 α :=
 def faceEq (vs : List (V3 α)) : V3 α × α :=
   faceEquation (vs.getD 0 V3.zero) (vs.getD 1 V3.zero) (vs.getD 2 V3.zero)
 
-/-- `np.isclose(a, b, rtol, atol)` for finite arguments -/
-def isclose (a b rtol atol : α) : Bool := decide (Scalar.abs (a - b) ≤ atol + rtol * Scalar.abs b)
+/-- `extent = np.max(np.linalg.norm(vertices - vertices[0], axis=1))` -/
+def extent (vs : List (V3 α)) : α :=
+  let v0 := vs.getD 0 V3.zero
+  vs.foldl (fun m v => Scalar.max m (V3.norm (v - v0))) (lit 0)
+
+/-- the coplanarity test of `Polygon.__init__` (as repaired by 744f807: relative to the polygon's size,
+    independent of placement and scale): `np.all(|(v − v₀)·n| <= planar_tolerance * extent)` -/
+def coplanar (n : V3 α) (vs : List (V3 α)) (ptol : α) : Bool :=
+  let v0 := vs.getD 0 V3.zero
+  let e := extent vs
+  vs.all fun v => decide (Scalar.abs (V3.dot (v - v0) n) ≤ ptol * e)
 
 /-- `len(np.unique(vertices, axis=0)) != len(vertices)` -/
 def hasDup : List (V3 α) → Bool
@@ -186,8 +195,8 @@ def hasDup : List (V3 α) → Bool
     External: `hullCount` = `len(ConvexHull(aligned[:, :2]).vertices)` (Qhull, inside `_is_convex`),
     `reordered` = the vertex order `_reorder_verts` leaves (angle sort about the vertex mean).
     Every rejection is a `ValueError`: fewer than 3 vertices, duplicate vertices, degenerate first corner
-    (nan normal fails the coplanarity test), a vertex off the plane of the first corner
-    (`np.isclose(n·v, d, 1e-4)`: rtol = 1e-4, atol = 1e-8), not all vertices on the hull (non-convex face,
+    (nan normal fails the coplanarity test), a vertex off the plane through the first vertex by more than
+    `1e-4 · extent` (`|(v − v₀)·n| <= planar_tolerance * max‖v − v₀‖`), not all vertices on the hull (non-convex face,
     or a vertex inside an edge). -/
 def faceArea (vs : List (V3 α)) (hullCount : Nat) (reordered : List (V3 α)) : Except String α :=
   if vs.length < 3 then .error "ValueError"
@@ -198,8 +207,7 @@ def faceArea (vs : List (V3 α)) (hullCount : Nat) (reordered : List (V3 α)) : 
     if Scalar.eqb nrm (lit 0) then .error "ValueError"
     else
       let n := V3.sdiv c nrm
-      let d := V3.dot n (vs.getD 0 V3.zero)
-      if !(vs.all fun v => isclose (V3.dot n v) d (q 1 10000) (q 1 100000000)) then .error "ValueError"
+      if !(coplanar n vs (q 1 10000)) then .error "ValueError"
       else if hullCount != vs.length then .error "ValueError"
       else .ok (Poly2.area reordered n)
 
